@@ -6,7 +6,7 @@
 (* the acting node's tables) -- synchronisation only, the judge ignores them.*)
 (*                                                                          *)
 (* VERIF_DISCMODE selects the operations mixed in:                          *)
-(*   core     init, tick, deliver, drop, duplicate                          *)
+(*   core     init, tick, deliver, drop, duplicate, retrieval of a chunk    *)
 (*   del      core + cancel / DelDiscover / DelFile                         *)
 (*   late     a deletion, then a response that was still queued             *)
 (*   timeout  core + firing of timeout triggers                             *)
